@@ -106,6 +106,8 @@ pub enum Src {
   IntervalUs(u64),
   /// (delay from now in ms: negative = in the past, period ms)
   IntervalAt(i64, u64),
+  /// as IntervalAt, period in microseconds
+  IntervalAtUs(i64, u64),
   Timer(V, u64),
   /// as Timer, delay in microseconds
   TimerUs(V, u64),
@@ -362,7 +364,7 @@ impl Src {
       Src::Throw(_) => "throw",
       Src::Defer(_) => "defer",
       Src::Interval(_) | Src::IntervalUs(_) => "interval",
-      Src::IntervalAt(..) => "interval_at",
+      Src::IntervalAt(..) | Src::IntervalAtUs(..) => "interval_at",
       Src::Timer(..) | Src::TimerUs(..) => "timer",
       Src::TimerAt(..) => "timer_at",
       Src::Future(..) => "from_future",
